@@ -65,6 +65,9 @@ int main(int argc, char** argv) {
     std::vector<unsigned> stepss = T ? std::vector<unsigned>{16, 24, 40, 64, 100, 200, 400} : std::vector<unsigned>{24, 64};
     std::vector<unsigned> ns = T ? std::vector<unsigned>{32, 33, 48, 64, 65, 96} : std::vector<unsigned>{32, 33};
     if (D) { stepss.push_back(800); ns.push_back(128); }     // thorough: a finer time step and a finer grid
+    // very fine time steps (the program's default is 1000 per period; users go to 10000 and beyond): angle 6e-3 ... 3e-4 rad, displacements of a thousandth of a cell
+    for (unsigned st : {1000u, 4000u, 10000u}) stepss.push_back(st);
+    if (D) stepss.push_back(30000);
     std::vector<float> shifts = T ? std::vector<float>{-3, 0, 2} : std::vector<float>{0, 2};
     std::vector<unsigned> its = T ? std::vector<unsigned>{2, 3, 4} : std::vector<unsigned>{3, 4};
     const double starts[][2] = {{1.0, 0.0}, {0.0, -1.2}, {-0.8, 0.7}, {0.5, 1.0}, {-1.1, -0.4}, {0.9, -0.9}, {0.0, 0.6}, {-0.6, 0.0}, {0.3, 0.25}};
@@ -74,6 +77,7 @@ int main(int argc, char** argv) {
         // bunch axis: single bunch; the second of two bunches; the third of three (every bunch of a train rotates like a single bunch)
         const unsigned nb = bv + 1, bsel = bv;
         if (bv && (si != 0 || wi != 0)) continue;
+        if (steps >= 1000 && ((n != 32 && n != 33) || it != 4 || si > 1 || wi || bv || model == 2)) continue;   // (fine time steps: two grids, cubic interpolation, two starts, both RF models)
         const bool linear = model == 0;
         // model 2: sinusoidal RF with a voltage close to the radiation loss per turn (45.5 kV for this ring): synchronous phase 0.23 rad instead of 0.05
         // (lower still, the curvature of the voltage over the width of the blob moves the centre of the rotation by more than the tolerance: not a small bunch any more)
@@ -102,7 +106,9 @@ int main(int argc, char** argv) {
             const double c0q = t.q[0], c0p = t.p[0], r0 = std::hypot(c0q, c0p);
             // the statement is about distributions that stay inside the grid: low interpolation orders smear the charge until it reaches the border;
             // a trajectory is followed up to the first step at which more than 1e-4 of the charge has left
-            unsigned valid = steps; for (unsigned k = 1; k <= steps; k++) if (std::fabs(t.charge[k] / t.charge[0] - 1) > 1e-4) { valid = k - 1; break; }
+            // (single-precision rounding alone moves the sum by about 2.5e-8 per step - measured: +9e-5 after 4000 steps, nothing lost - so the threshold grows with the step count)
+            const double qthr = 1e-4 * std::max(1.0, steps / 1000.0);
+            unsigned valid = steps; for (unsigned k = 1; k <= steps; k++) if (std::fabs(t.charge[k] / t.charge[0] - 1) > qthr) { valid = k - 1; break; }
             if (valid < steps) {
                 R.addnum("sum_trajectories_cut_at_border", 1);
                 // cubic interpolation does not smear a blob of radius <= 1.2 and width <= 0.9 to a border 4.8 or more units away within HALF a period
